@@ -77,9 +77,15 @@ def run(ctx):
         return []
 
     # producer
-    cb = sm.funcs.get("Scheduler._evaluate_apply.callback")
+    # the nested function of _evaluate_apply that copies the bookkeeping: the one holding the isinstance dispatch with `<dup>.<field> = <orig>.<field>` arms
+    cb = None
+    for q, f in sm.funcs.items():
+        if q.startswith("Scheduler._evaluate_apply.") and q.count(".") == 2:
+            if any(isinstance(n, ast.If) and any(isinstance(c, ast.Call) and call_name(c) == "isinstance" for c in ast.walk(n.test)) and any(isinstance(b, ast.Assign) and isinstance(b.targets[0], ast.Attribute) and b.targets[0].attr in ("call_hash", "_upstreams") for b in n.body) for n in f.body):
+                cb = f
+                cbq = q
     if cb is None:
-        raise AnalysisError("dedup callback not found in _evaluate_apply", "Scheduler._evaluate_apply.callback")
+        raise AnalysisError("dedup bookkeeping copy not found in _evaluate_apply", "Scheduler._evaluate_apply.callback")
     pchain = if_chain(cb)
     pvar = None
     for test, _ in pchain:
@@ -111,12 +117,40 @@ def run(ctx):
         ok = bool(need) and all(f in have for f in need)
         r1.check(
             ok,
-            f"{sm.rel}:Scheduler._evaluate_apply.callback:{kind}",
+            f"{sm.rel}:{cbq}:{kind}",
             f"for a deduplicated {kind}, _find_arg_upstreams reads {need} but the dedup callback copies {have}: the duplicate's upstream call "
             "nodes are not linked to the argument it feeds",
             sm.rel,
             cb.lineno,
             note=f"reads {need}, copies {have}",
+        )
+    # the copy must run whether the original call succeeds or fails: a failed call has a call node too, and its error may become an argument
+    # (catch hands it to the recover task)
+    ea0 = sm.func("Scheduler._evaluate_apply")
+    local_fns = {q.split(".")[-1]: f for q, f in sm.funcs.items() if q.startswith("Scheduler._evaluate_apply.") and q.count(".") == 2}
+
+    def reaches_copy(fname, seen=()):
+        f = local_fns.get(fname)
+        if f is None or fname in seen:
+            return False
+        if f is cb:
+            return True
+        return any(isinstance(c.func, ast.Name) and reaches_copy(c.func.id, seen + (fname,)) for c in calls_in(f))
+
+    thens = [c for c in calls_in(ea0, shallow=True) if last_attr(c) == "then" and isinstance(c.func, ast.Attribute) and "pending_promise" in src(c.func.value)]
+    if not thens:
+        raise AnalysisError("_evaluate_apply: `pending_promise.then(...)` of the dedup branch not found", "Scheduler._evaluate_apply")
+    for c in thens:
+        on_ok = len(c.args) >= 1 and isinstance(c.args[0], ast.Name) and reaches_copy(c.args[0].id)
+        on_err = (len(c.args) >= 2 and isinstance(c.args[1], ast.Name) and reaches_copy(c.args[1].id)) or any(kw.arg == "rejector" and isinstance(kw.value, ast.Name) and reaches_copy(kw.value.id) for kw in c.keywords)
+        r1.check(on_ok, f"{sm.rel}:Scheduler._evaluate_apply:dedup-copy-on-success", "the duplicate expression does not receive the original's bookkeeping when the original call succeeds", sm.rel, c.lineno)
+        r1.check(
+            on_err,
+            f"{sm.rel}:Scheduler._evaluate_apply:dedup-copy-on-failure",
+            f"`{src(c)}` copies call_hash/_upstreams to the duplicate expression only when the original call succeeds: when it fails, the duplicate's error (e.g. handed by catch to "
+            "its recover task) is recorded without an upstream link to the failed call node",
+            sm.rel,
+            c.lineno,
         )
     ctx.extra["dispatch_table"] = table
     ctx.extra["exhaustive"] = True
